@@ -78,4 +78,14 @@ REG = {
         'the prescribed handler ran once, and that it was given the request\'s options (Hop-Limit decremented), query, payload and token.',
    note='Where two rules apply any applicable outcome passes; library-generated error replies may or may not honour No-Response / multicast suppression. '
         'Proxy forwarding itself, Block/Observe side effects and diagnostic payload text are not constrained.'),
+ 'C05': dict(module='stream', engine='stream', category='model_checking', design_ref='4/C05',
+   technique='TLA+ spec Stream (Messages(stream) vs chunk-fed reader, TLC refinement over all chunkings) + TLC judging the real TCP reader under scripted segmentation',
+   text='Stream.tla gives the message sequence as a function of the concatenated bytes (RFC 8323 length forms, RFC 8974 extended token length) and MC_Stream '
+        'feeds the three-branch reader with every chunking of a catalogue of streams, checking emitted = Messages(prefix), completeness and bounded buffering. '
+        'A real TCP server session (real accept path, wrapped coap_socket_read/write) is then fed streams of 1-6 messages - all four length forms incl. 65805+ bytes, '
+        'tokens 0/8/13/20/269/300, ping/pong/empty/CSM/responses/malformed messages, release/abort, declared sizes above the maximum - cut at every 1-cut, sampled '
+        '2- and 3-cut placements, one byte per read, empty reads, buffer-size reads and random cuts; TLC requires the delivered requests (token, payload), pongs '
+        'and closure to equal Stream!Obs of the stream for every chunking.',
+   note='Covers TCP framing (TLS uses the same reader above the TLS layer). WebSocket handshake/frame segmentation is NOT covered by this check yet (DESIGN.md); '
+        'declared sizes within 100 bytes of the configured maximum and TKL 15 inside a stream are not generated.'),
 }
